@@ -631,7 +631,12 @@ func (n *NativeScript) evaluate(ctx nativeScriptEvalContext) bool {
 
 	switch s := n.item.(type) {
 	case *NativeScriptPubkey:
-		// Check if the required key hash is in the witness set
+		// Check if the required key hash is in the witness set. A key hash
+		// is exactly 28 bytes; anything else cannot match a witness (copy
+		// would otherwise zero-pad a short value and truncate a long one).
+		if len(s.Hash) != Blake2b224Size {
+			return false
+		}
 		var hash Blake2b224
 		copy(hash[:], s.Hash)
 		return ctx.keyHashes[hash]
